@@ -538,7 +538,7 @@ func generated() {
 	g := r.Rng.Fork()
 	// ---- per-opcode sweep through evalScript: every opcode byte × stack depth × sigversion × flags
 	depths := []int{0, 1, 2, 3, 4, 6, 7}
-	rounds := r.N(2, 40)
+	rounds := r.N(5, 120)
 	for round := 0; round < rounds; round++ {
 		for op := 0; op < 256; op++ {
 			d := depths[g.Intn(len(depths))]
@@ -573,7 +573,7 @@ func generated() {
 		}
 	}
 	// ---- grammar-generated scripts through evalScript
-	for i := 0; i < r.N(1500, 60000); i++ {
+	for i := 0; i < r.N(4000, 200000); i++ {
 		e := &EvalCase{Kind: "grammar-eval", Flags: randFlags(g), SV: g.Pick(0, 0, 1, 3), Version: uint32(1 + g.Intn(2)),
 			LockTime: uint32(g.Pick(0, 100, 500000000)), Sequence: uint32(g.Pick(0, 5, 0x00400005, 0xfffffffe, 0xffffffff)), Weight: int64(g.Pick(0, 50, 120, 100000))}
 		e.Script = randScript(g, 1+g.Intn(12), 0)
@@ -590,7 +590,7 @@ func generated() {
 	}
 	// ---- grammar-generated spends with real signatures, then mutations
 	ts := templates()
-	for i := 0; i < r.N(1200, 50000); i++ {
+	for i := 0; i < r.N(3500, 150000); i++ {
 		fl := randFlags(g)
 		if g.Intn(3) != 0 { // bias towards flag sets under which the template can succeed
 			fl |= script.VER_P2SH | script.VER_WITNESS | script.VER_TAPROOT
